@@ -361,6 +361,28 @@ pub fn generate(tier: Tier, rng: &mut Rng) -> Vec<Case> {
             }
         }
     }
+    // nested macros whose inner body, predicate or range mentions the OUTER iteration variable,
+    // over short and long (9-12 element) ranges
+    let long: Vec<i64> = (1..=11).collect();
+    for outer in [vec![1i64, 2, 3], vec![], vec![0, 2], long.clone()] {
+        let o = list_src(&outer);
+        for inner in ["[10, 20]", "[x, 0, x]", "[]", "[1, 2, 3, 4, 5, 6, 7, 8, 9, 10]"] {
+            for src in [
+                format!("{o}.map(x, {inner}.map(y, x + y))"),
+                format!("{o}.map(x, {inner}.filter(y, y > x))"),
+                format!("{o}.filter(x, {inner}.exists(y, y == x * 10))"),
+                format!("{o}.all(x, {inner}.all(y, t(y) >= 0 && x >= 0))"),
+                format!("{o}.exists(x, {inner}.exists_one(y, y / x == 5))"),
+                format!("{o}.map(x, x > 1, {inner}.map(y, [x, y]))"),
+                format!("{o}.map(x, {inner}.map(y, {inner}.filter(z, z > y + x).size()))"),
+                format!("{o}.exists(x, x > 100 || missing_name == x)"),
+                format!("{o}.all(x, x < 0 && missing_name)"),
+                format!("{o}.map(x, x > 100, x + missing_name)"),
+            ] {
+                push_case(&mut out, &spec, src, None, vec!["nested-outer-var"]);
+            }
+        }
+    }
     // shapes of the expansion
     for (f, tgt, args) in [
         ("all", Some("r"), vec!["x", "x > 0"]),
